@@ -403,6 +403,31 @@ class FnTaint:
         return out
 
 
+def _through_local_helper(fn: Function, h: ast.AST) -> ast.AST:
+    """`helper(x)` where helper is a function defined inside `fn` (or a plain function of its module) whose body is one `return <expr>`:
+    the hole is judged as that expression with the argument substituted (a one-line wrapper around json.dumps / an escaper stays visible)."""
+    if not (isinstance(h, ast.Call) and isinstance(h.func, ast.Name) and not h.keywords):
+        return h
+    cands = [n for n in ast.walk(fn.node) if isinstance(n, ast.FunctionDef) and n.name == h.func.id and n is not fn.node]
+    if not cands and h.func.id in fn.module.functions:
+        cands = [fn.module.functions[h.func.id].node]  # type: ignore[list-item]
+    if len(cands) != 1:
+        return h
+    body = [s_ for s_ in cands[0].body if not (isinstance(s_, ast.Expr) and isinstance(s_.value, ast.Constant))]
+    params = [a.arg for a in cands[0].args.args]
+    if len(body) != 1 or not isinstance(body[0], ast.Return) or body[0].value is None or len(params) != len(h.args):
+        return h
+    from sa.match import clone
+
+    sub = dict(zip(params, h.args))
+
+    class _S(ast.NodeTransformer):
+        def visit_Name(self, n: ast.Name) -> ast.AST:  # noqa: N802
+            return clone(sub[n.id]) if n.id in sub and isinstance(n.ctx, ast.Load) else n
+
+    return ast.fix_missing_locations(_S().visit(clone(body[0].value)))
+
+
 def _removes_line_breaks(e: ast.Call) -> bool:
     txt = norm(e)
     return ".splitlines()" in txt and ".join(" in txt
@@ -491,6 +516,7 @@ def run(repo: Repo, rep: Report, tier: str) -> None:
                         continue  # text composition: judged where it finally lands (R15.2 / the enclosing template) - except after a `#`
                         # that the piece itself opens: whatever follows on that line is a comment wherever the piece lands
                     ft = ft or FnTaint(fn)
+                    h = _through_local_helper(fn, h)
                     conv = t.convs.get(idx, -1)
                     if conv == ord("r"):
                         rep.ok("R15.1", f"{mod.relpath}:{fn.qualname} hole `{norm(h)[:40]}` ({st.kind})", "!r conversion", fn.loc(node))
